@@ -13,6 +13,7 @@ import (
 
 	"verif/refwire"
 	"verif/vk"
+	"verif/vrt/vsched"
 )
 
 // scn is a query scenario: options, the query (with callbacks wired to fa) and the
@@ -139,6 +140,7 @@ func body04(s scn, f fault, probe bool) Body {
 		if err != nil {
 			return Outcome{Key: "C04/" + s.name + "/handshake-failed", Detail: err.Error()}
 		}
+		defer vsched.Quiet(func() { _ = c.C.Close() })
 		fa := &failAt{}
 		var inj *Inject
 		switch f.kind {
@@ -167,11 +169,11 @@ func body04(s scn, f fault, probe bool) Body {
 		}
 		q, steps := s.mk(c, fa)
 		c.RunPeer("peer", c.HsLen, steps, inj)
-		t0 := time.Now()
+		t0, st0 := time.Now(), vsched.Stolen()
 		derr := c.Cl.Do(context.Background(), q)
-		el := time.Since(t0)
+		el := time.Since(t0) - (vsched.Stolen() - st0)
 		name := "C04/" + s.name
-		limit := 3*time.Second*time.Duration(curBound+2) + 2*time.Second
+		limit := 3*time.Second + time.Second + time.Second
 		if derr != nil && el > limit {
 			return Outcome{Key: name + "/slow-return", Detail: fmt.Sprintf("Do returned %v after %v of fake time (limit %v)", derr, el, limit), Obs: "slow"}
 		}
